@@ -256,11 +256,11 @@ Section Engines.
 
   Definition check_safebrowsing (st : settings) (host : bytes) : result :=
     if st_protection st && st_safebrowsing st && sb_oracle host
-    then mkResult FilteredSafeBrowsing true [] [] else no_result.
+    then mkResult FilteredSafeBrowsing true [] [(0, None)] else no_result.
 
   Definition check_parental (st : settings) (host : bytes) : result :=
     if st_protection st && st_parental st && par_oracle host
-    then mkResult FilteredParental true [] [] else no_result.
+    then mkResult FilteredParental true [] [(0, None)] else no_result.
 
   (** The checkers in the order of filtering.New's literal (the hosts
       container and safe search are not configured). *)
@@ -452,7 +452,8 @@ Section Engines.
   Definition healthcheck_fqdn : bytes :=
     [104;101;97;108;116;104;99;104;101;99;107;46;97;100;103;117;97;114;100;104;111;109;101;46;116;101;115;116;46].
 
-  (** The upstream: None = resolution error. *)
+  (** The upstream: None = resolution error (dnsproxy then leaves a SERVFAIL
+      in the context and the handler returns the error). *)
   Definition upstream := bytes -> N -> option resp.
 
   Inductive stage := StInitial | StFilterBefore | StUpstream | StFilterAfter | StLog.
@@ -494,7 +495,7 @@ Section Engines.
         | None =>
             let calls := ps_calls p ++ [(q_name q, q_qtype q)] in
             match up (q_name q) (q_qtype q) with
-            | None => (RcError, mkPState None calls (ps_result p) false false false)
+            | None => (RcError, mkPState (Some servfail) calls (ps_result p) false false false)
             | Some r => (RcSuccess, mkPState (Some r) calls (ps_result p) false true false)
             end
         end
